@@ -64,6 +64,8 @@ type cnDriver struct {
 	lastRh      []*rhView        // round state of the runtimes at the end of the previous block
 	rhQuiet     map[string]int64 // runtime -> round for which no further commitments are generated (left to the round timer)
 	vaults      bool             // vault transactions are generated
+	txSweep     bool             // all single structural body mutations of the block's transactions at CheckTx / EstimateGas
+	sweepInputs int
 	otherTxs    []cnBlockResult  // results of the current block on the validator replicas (all paths but the observer's)
 	slashedEnts []string         // entities against whose validator evidence was included (their escrow was slashed)
 	lastVault   []map[string]any // vault state at the end of the previous block
@@ -887,6 +889,26 @@ func (d *cnDriver) step() error {
 			}
 		}
 	}
+	if d.txSweep && h%3 == 0 {
+		// every single structural mutation of the body of every well-formed transaction of this block, correctly signed, at the
+		// mempool check of the observer and through gas estimation (simulation) - neither has an effect on the state
+		for _, m := range metas {
+			if m.spec.Validity != "ok" || m.spec.Kind == "junk" {
+				continue
+			}
+			for _, mt := range n.allBodyMutations(m.raw, 400) {
+				d.sweepInputs++
+				if perr := guard(func() {
+					d.reps[0].mux.CheckTx(cmtabci.RequestCheckTx{Tx: mt, Type: cmtabci.CheckTxType_New})
+					d.reps[0].estimate(mt)
+				}); perr != nil {
+					msg := perr.Error()
+					d.panics = append(d.panics, fmt.Sprintf("h=%d CheckTx / EstimateGas of a mutated %s body (%x): %s", h, m.spec.Kind, mt[:min(len(mt), 600)], msg[:min(len(msg), 1500)]))
+					d.emit(map[string]any{"ev": "panic", "h": h, "where": "CheckTx(mutated " + m.spec.Kind + ")", "msg": msg[:min(len(msg), 2000)]})
+				}
+			}
+		}
+	}
 	var mempool [][]byte
 	for _, m := range metas {
 		mempool = append(mempool, m.raw)
@@ -1273,6 +1295,7 @@ func consRun(args []string) int {
 	sanity := fs.Bool("sanity", false, "register the in-tree supplementary sanity checker in the observer (it halts the chain on a failure; TLC is the oracle, so it is off by default)")
 	concurrent := fs.Bool("concurrent", true, "run CheckTx / EstimateGas / state queries in goroutines while validator replicas execute blocks")
 	vaults := fs.Bool("vault", false, "generate vault transactions (creation, actions, deposits, withdrawals through the account hook)")
+	txSweep := fs.Bool("txsweep", false, "every 3rd block: all single structural mutations of every transaction body, correctly signed, through CheckTx and EstimateGas of the observer")
 	logLevel := fs.String("log", "", "oasis-core log level to stderr (debug|info|warn|error); empty = no logging")
 	fs.Parse(args)
 	if *logLevel != "" {
@@ -1300,7 +1323,7 @@ func consRun(args []string) int {
 		fmt.Fprintln(os.Stderr, "net:", err)
 		return 2
 	}
-	d := &cnDriver{net: net, vaults: *vaults, rhQuiet: map[string]int64{}, valset: map[int]int64{}, rng: rand.New(rand.NewSource(*seed)), w: bufio.NewWriterSize(w, 1<<20),
+	d := &cnDriver{net: net, txSweep: *txSweep, vaults: *vaults, rhQuiet: map[string]int64{}, valset: map[int]int64{}, rng: rand.New(rand.NewSource(*seed)), w: bufio.NewWriterSize(w, 1<<20),
 		paths: map[string]int{}, txKinds: map[string]int{}, nodeRts: map[string]string{}, pendRts: map[*cnTxSpec]string{}, rtOwner: map[string]string{}, rtDeps: map[string][][2]int64{}, nodeVer: map[string]int64{}, maxGroup: *maxGroup, noRounds: *noRounds, syncEvery: *syncEvery}
 	if *syncEvery > 0 {
 		d.blockLog = map[int64]*cnLogged{}
@@ -1360,7 +1383,7 @@ func consRun(args []string) int {
 	d.w.Flush()
 	if *summ != "" {
 		writeJSONFile(*summ, map[string]any{
-			"blocks": d.height, "events": d.nEvents, "diverged": d.diverged, "panics": d.panics, "rejects": d.rejects, "paths": d.paths,
+			"blocks": d.height, "events": d.nEvents, "sweep_inputs": d.sweepInputs, "diverged": d.diverged, "panics": d.panics, "rejects": d.rejects, "paths": d.paths,
 			"tx_kinds": d.txKinds, "error": runErr, "replicas": len(d.reps), "concurrent_calls": func() int {
 				n := 0
 				for _, r := range d.reps {
